@@ -402,6 +402,7 @@ class Prog:
         self.claimable = []       # weak handles that scripts sent earlier will put into the pool: (name, kind)
         self.ops = []
         self.counter = counter
+        self.join_d = [0, 0, 1, 2, 3]
         self.acnt = None          # shared counter of actor names, for operations that spawn (spawn_register)
 
     def fresh(self):
@@ -491,7 +492,7 @@ class Prog:
             k = self.h[x]
             o = {"op": op, "h": x}
             if op == "join":
-                o["d"] = rng.choice([0, 0, 1, 2, 3])
+                o["d"] = rng.choice(self.join_d)
             elif op in ("send", "call", "ping", "await_ref", "try_halt", "halt", "await", "consume") and rng.random() < self.cancel_p:
                 o["d"] = 1          # poll once, drop if still pending
             if op in ("send", "call", "force_send"):
